@@ -105,6 +105,24 @@ def finish(pid, tier, seed, goals, meta, results, ok_canary, canary_info, t0):
         else:
             still_undecided.append(ob)
     undecided = still_undecided
+    # the same for a goal that could not be generated at all (the code no longer fits the shape its contract speaks about)
+    for r in results:
+        if not r.get('error'): continue
+        g = r['goal']
+        ob = {'id': '%s:%s:goal-error' % (g['engine'].upper(), g['key']), 'text': str(r['error'])[:300], 'engine': g['engine'], 'goal': g['key']}
+        try:
+            rep = replay.attempt(pid, ob)
+        except Exception as ex:
+            rep = {'reproduced': None}
+        if rep.get('reproduced') is True:
+            os.makedirs(rdir, exist_ok=True)
+            path = os.path.join(rdir, safe(ob['id'])[:120] + '.json')
+            rec = {'property': pid, 'obligation': ob['id'], 'engine': ob['engine'], 'function': g['key'], 'clause': 'no obligation could be generated: ' + ob['text'],
+                   'solver': {'name': None, 'verdict': 'none (the failing input comes from the witness driver of this function)'}}
+            rec.update(rep)
+            json.dump(rec, open(path, 'w'), indent=1, default=str)
+            violations += 1
+            lines.append('VIOLATION property=%s replay=%s' % (pid, path))
     # thorough tier: witness drivers run on the real code; one that observes a violation of the property statement is a failing input
     witness_errors = []
     for w in meta.get('witness_replays') or []:
